@@ -26,6 +26,17 @@ func runCase(c chainsim.Case, rep chainsim.Reporter, scratch string) {
 		rep.Inconclusive("setup failed: " + err.Error())
 		return
 	}
+	if c.Mode == "genesis-churp" {
+		// The witness case also replays the minimal history of the second listed finding.
+		h.Gen.Extra = func(g *chainsim.TxGen, height int64, _ []*chainsim.GenTx) []*chainsim.GenTx {
+			if height == 3 {
+				if gt := g.MkIdentityAsSubKey(); gt != nil {
+					return []*chainsim.GenTx{gt}
+				}
+			}
+			return nil
+		}
+	}
 	h.Run()
 	chainsim.ReportCommon(h, rep)
 	rep.Count("registry_state_checks", int64(rm.Checked))
